@@ -68,6 +68,26 @@ theorem C04_source_exclude_all (X : Ext) (hC : PatternFilterCtor X) :
   simp only [Gen.cliExcludeAllSrc, Plumb.excludeAllPats]
   pylite_eval [this]
 
+/-- What the constructors store (the body of `__init__`, translated as the function returning the dict of the
+    attributes it assigns): `PatternFilter(patterns)` keeps the pattern list as `_patterns` and nothing else … -/
+theorem C04_source_pattern_filter_init (v : Val) :
+    Gen.cliPatternFilterInitSrc.run noExt [v] = .ok (.dict [(.str "_patterns", v)]) := by
+  simp only [Gen.cliPatternFilterInitSrc]
+  pylite_eval [dictSet]
+
+/-- … and `FieldToleranceMap(tolerances, default_tol)` keeps the dict (`None` / empty: an empty dict) as
+    `_field_tolerances` and the default, unchanged, as `_default` — the two attributes `__call__` reads
+    (`ftmVal`; this is what `TolExt.hctor` / `hempty` assume about the constructor call). -/
+theorem C04_source_field_tolerance_map_init (kvs : List (Val × Val)) (d : Val) :
+    Gen.cliFieldToleranceMapInitSrc.run noExt [.dict kvs, d]
+      = .ok (.dict [(.str "_default", d), (.str "_field_tolerances", .dict kvs)]) ∧
+    Gen.cliFieldToleranceMapInitSrc.run noExt [.none, d]
+      = .ok (.dict [(.str "_default", d), (.str "_field_tolerances", .dict [])]) := by
+  simp only [Gen.cliFieldToleranceMapInitSrc]
+  constructor
+  · cases kvs <;> pylite_eval [dictSet]
+  · pylite_eval [dictSet]
+
 /-- What the two default filters decide (given that `fnmatch(name, "*")` is true for every name): absent
     `--include-fields` accepts every field — `Cli.Opts.included` with `incl = none` —, absent `--exclude-fields`
     rejects none — `Cli.Opts.excluded` with `excl = none`. -/
